@@ -14,8 +14,9 @@ Faults(op, n) == {NoFault}
     \cup {[kind |-> f, at |-> i, stage |-> ""] : f \in FaultKinds(op), i \in 1..(n + 1)}
     \cup (IF op = "copy" THEN {[kind |-> "hook", at |-> i, stage |-> "copied"] : i \in 1..(n + 1)} ELSE {})
 \* not a fault: the destination already holds a file of that name and length with other bytes (newer mtime)
-Stale == UNION {{[k |-> "up", op |-> op, kind |-> kd, shapes |-> Plain(n), fault |-> [kind |-> "stale", at |-> i, stage |-> ""]] :
-                    i \in 1..(n + 1)} : op \in {"copy", "move"}, kd \in Kinds, n \in 1..MaxN}
+\* ("stalelong": the old file is longer than the new one - what is left of it after the copy must be nothing)
+Stale == UNION {{[k |-> "up", op |-> op, kind |-> kd, shapes |-> Plain(n), fault |-> [kind |-> sk, at |-> i, stage |-> ""]] :
+                    i \in 1..(n + 1), sk \in {"stale", "stalelong"}} : op \in {"copy", "move"}, kd \in Kinds, n \in 1..MaxN}
 \* not a fault either: the destination directory lies on another filesystem (rename(2) answers EXDEV there)
 XDev == UNION {{[k |-> "up", op |-> op, kind |-> kd, shapes |-> Plain(n), fault |-> [kind |-> "xdev", at |-> 0, stage |-> ""]] :
                    op \in {"copy", "move"}, kd \in Kinds} : n \in 0..MaxN}
